@@ -18,7 +18,7 @@ import (
 // the stores being of different kinds (frozen table, one line of reason each).
 
 func init() {
-	register(&Rule{ID: "SH-SIBLING-STORE", Floor: 100,
+	register(&Rule{ID: "SH-SIBLING-STORE", Floor: 60,
 		Doc: "cross-check of the directory and memory store: for every method of the store, repository and upload types that both stores implement, the features ‘validates its digest argument’, ‘refuses when read-only’, ‘set of sentinel errors it can return’, ‘tests the stop channel’ agree, except for the frozen list of differences that follow from one store persisting and the other not",
 		Run: runSiblingStore})
 }
@@ -29,32 +29,37 @@ var siblingExceptions = map[string]string{
 	"repo.BlobCreate|validates-digest": "dir=true mem=false — as for blobCreate, when the exported method contains the implementation",
 	"repo.blobCreate|validates-digest": "dir=true mem=false — only the directory store turns the announced digest into a file name before any content exists; the memory store uses it as a map key",
 	"store.Close|read-only-guard":      "dir=true mem=false — only the directory store's session cleanup removes files, which a read-only store must not do",
+	"repo.repoInit|read-only-guard":    "dir=true mem=false — only the directory store's initialiser writes (the layout files), which it refuses on a read-only store; the memory store's initialiser only reads its backing directory",
+	"repo.repoInit|sentinels":          "dir=ErrReadOnly mem= — as above",
 	"store.RepoGet|sentinels":          "dir=ErrRepoNotAllowed mem= — only the directory store reserves the names of its layout files as path components",
 }
 
 func storeFeatures(c *core.Ctx, r *Roles, fn *ssa.Function) map[string]string {
 	f := map[string]string{}
 	sent := map[string]bool{}
-	validates, ro, mutex, stop := false, false, false, false
-	var visit func(fn *ssa.Function, depth int)
-	seen := map[*ssa.Function]bool{}
-	visit = func(fn *ssa.Function, depth int) {
-		if fn == nil || seen[fn] || depth > 1 {
+	validates, ro, stop := false, false, false
+	isHelper := func(sc *ssa.Function) bool {
+		if sc == nil || len(sc.Blocks) == 0 || core.FuncPkgPath(sc) != core.FuncPkgPath(fn) {
+			return false
+		}
+		if sc.Signature.Recv() != nil && (r.APIMethods["Store"][sc.Name()] || r.APIMethods["Repo"][sc.Name()] || r.APIMethods["BlobCreator"][sc.Name()]) {
+			return false
+		}
+		if r.FamilyOfFunc(sc) == nil && sc.Signature.Recv() == nil {
+			return false // shared code (ingest, collector): common to both stores
+		}
+		return true
+	}
+	// scanEffects: digest validation and the stop test, wherever the method's own code (incl. helpers) does them
+	var scanEffects func(f *ssa.Function, d int, seen map[*ssa.Function]bool)
+	scanEffects = func(f *ssa.Function, d int, seen map[*ssa.Function]bool) {
+		if f == nil || seen[f] || d > 2 {
 			return
 		}
-		seen[fn] = true
-		an.Instrs(fn, func(in ssa.Instruction) {
+		seen[f] = true
+		an.Instrs(f, func(in ssa.Instruction) {
 			switch x := in.(type) {
 			case *ssa.UnOp:
-				if g, ok := x.X.(*ssa.Global); ok && x.Op == token.MUL && an.IsErrorType(an.Deref(g.Type())) && g.Pkg != nil && g.Pkg.Pkg.Path() == c.P.Module+"/types" {
-					sent[g.Name()] = true
-				}
-				if x.Op == token.MUL {
-					_, p := accessPath(x)
-					if len(p) >= 2 && p[len(p)-1] == "ReadOnly" {
-						ro = true
-					}
-				}
 				if x.Op == token.ARROW {
 					_, p := accessPath(an.Strip(x.X))
 					if len(p) == 1 && p[0] == "stop" {
@@ -72,21 +77,59 @@ func storeFeatures(c *core.Ctx, r *Roles, fn *ssa.Function) map[string]string {
 				if an.IsMethod(x, "github.com/opencontainers/go-digest", "Digest", "Validate") {
 					validates = true
 				}
-				if depth == 0 && (an.IsMethod(x, "sync", "Mutex", "Lock") || an.IsMethod(x, "sync", "RWMutex", "Lock") || an.IsMethod(x, "sync", "RWMutex", "RLock")) {
-					recv, _ := an.CallArgs(x)
-					root, p := accessPath(an.Strip(recv))
-					if len(p) == 1 && len(fn.Params) > 0 && root == ssa.Value(fn.Params[0]) {
-						mutex = true
+				if sc := x.Common().StaticCallee(); isHelper(sc) {
+					scanEffects(sc, d+1, seen)
+				}
+			}
+		})
+		for _, af := range f.AnonFuncs {
+			scanEffects(af, d, seen)
+		}
+	}
+	scanEffects(fn, 0, map[*ssa.Function]bool{})
+	// scanRefusals: the sentinel errors the method can hand to its caller and the read-only refusal — in the method
+	// and in the helpers whose error result it returns
+	var scanRefusals func(f *ssa.Function, d int, seen map[*ssa.Function]bool)
+	scanRefusals = func(f *ssa.Function, d int, seen map[*ssa.Function]bool) {
+		if f == nil || seen[f] || d > 1 {
+			return
+		}
+		seen[f] = true
+		returned := map[ssa.Value]bool{}
+		an.Instrs(f, func(in ssa.Instruction) {
+			if ret, ok := in.(*ssa.Return); ok {
+				for _, rv := range ret.Results {
+					if an.IsErrorType(rv.Type()) {
+						for _, o := range an.Origins(rv) {
+							returned[o] = true
+							if ex, ok := o.(*ssa.Extract); ok {
+								returned[ex.Tuple] = true
+							}
+						}
 					}
 				}
 			}
 		})
+		an.Instrs(f, func(in ssa.Instruction) {
+			switch x := in.(type) {
+			case *ssa.UnOp:
+				if g, ok := x.X.(*ssa.Global); ok && x.Op == token.MUL && an.IsErrorType(an.Deref(g.Type())) && g.Pkg != nil && g.Pkg.Pkg.Path() == c.P.Module+"/types" {
+					sent[g.Name()] = true
+					if g.Name() == "ErrReadOnly" {
+						ro = true
+					}
+				}
+			case *ssa.Call:
+				if sc := x.Call.StaticCallee(); isHelper(sc) && returned[x] {
+					scanRefusals(sc, d+1, seen)
+				}
+			}
+		})
+		for _, af := range f.AnonFuncs {
+			scanRefusals(af, d, seen)
+		}
 	}
-	visit(fn, 0)
-	// closures defined in the method (deferred unlock helpers etc.)
-	for _, af := range fn.AnonFuncs {
-		visit(af, 1)
-	}
+	scanRefusals(fn, 0, map[*ssa.Function]bool{})
 	var ss []string
 	for s := range sent {
 		ss = append(ss, s)
@@ -95,7 +138,6 @@ func storeFeatures(c *core.Ctx, r *Roles, fn *ssa.Function) map[string]string {
 	f["sentinels"] = strings.Join(ss, ",")
 	f["validates-digest"] = fmt.Sprint(validates)
 	f["read-only-guard"] = fmt.Sprint(ro)
-	_ = mutex
 	f["tests-stop"] = fmt.Sprint(stop)
 	return f
 }
@@ -124,6 +166,10 @@ func runSiblingStore(c *core.Ctx) {
 		}
 		sort.Strings(names)
 		for _, n := range names {
+			// only the methods of the store interfaces: same-named private helpers are free to divide the work differently
+			if !(r.APIMethods["Store"][n] || r.APIMethods["Repo"][n] || r.APIMethods["BlobCreator"][n]) {
+				continue
+			}
 			fx, fy := storeFeatures(c, r, mx[n]), storeFeatures(c, r, my[n])
 			var feats []string
 			for k := range fx {
